@@ -28,9 +28,26 @@ Inductive verdict :=
 | Reject                         (* error path *)
 | Waiting.                       (* ran out of delivered lines: blocks, then times out = error *)
 
-(* protocol >= 2 (recvFileDataV2): frames are collected until the empty finish frame;
-   the decoded stream is written; pipelineSaveData demands step = size; then the MD5 line
-   must equal the digest of what was written *)
+(* protocol >= 2 (recvFileDataV2): frames are collected until the empty finish frame; the
+   decoded stream is written; then the MD5 line must equal the digest of the DECODED STREAM.
+
+   The size check is not atomic.  pipelineSaveData demands step = size, but only at the END of
+   the stream; pipelineSendAck - the stage that reports completion (ctx.succ) - polls savedSteps
+   once the finish flag has been read and reports as soon as it EQUALS the announced size.  When
+   the stream is longer than announced and the saved step passes through [size] (it starts at 0:
+   always so for size = 0), the acknowledger may win: recvFileDataV2 returns the digest of the
+   WHOLE stream (the hashing stage runs to the end), while the saver is stopped (ctx cancelled,
+   file closed) after a prefix of at least [size] bytes.  [early] is that schedule:
+   Some k = the acknowledger wins and k bytes reach the file; None = the saver's check decides. *)
+Variable early : option nat.
+
+Definition md5_verdict (w written : list byte) (rest : list line) : verdict :=
+  match rest with
+  | LMd5 d :: _ => if deq d (H w) then Accept written else Reject
+  | [] => Waiting
+  | _ => Reject
+  end.
+
 Fixpoint recv_v2 (size : Z) (acc : list (list byte)) (ls : list line) : verdict :=
   match ls with
   | [] => Waiting
@@ -38,13 +55,15 @@ Fixpoint recv_v2 (size : Z) (acc : list (list byte)) (ls : list line) : verdict 
     match decode acc with
     | None => Reject
     | Some w =>
-      if (Z.of_nat (length w) =? size)%Z then
-        match rest with
-        | LMd5 d :: _ => if deq d (H w) then Accept w else Reject
-        | [] => Waiting
-        | _ => Reject
+      if (Z.of_nat (length w) =? size)%Z then md5_verdict w w rest
+      else
+        match early with
+        | Some k =>
+          if (0 <=? size)%Z && (size <? Z.of_nat (length w))%Z && (size <=? Z.of_nat k)%Z && (k <=? length w)%nat
+          then md5_verdict w (firstn k w) rest
+          else Reject
+        | None => Reject
         end
-      else Reject
     end
   | LData f :: rest => recv_v2 size (acc ++ [f]) rest
   | LKeep :: rest => recv_v2 size acc rest
